@@ -48,34 +48,6 @@ static void d_thread_exit(void *r) { (void) r; if (!d_exit_jb) abort(); longjmp(
 #define pthread_create d_pthread_create
 #define pthread_exit d_thread_exit
 
-/* <urcu/verif.h> evaluates the address argument of its hook macros several times; urcu-defer-impl.h passes
- * side-effecting addresses (&q[head++ & MASK], &q[i++ & MASK]).  Same hooks, address evaluated once: */
-#include <urcu/arch.h>
-#include <urcu/uatomic.h>
-#undef uatomic_load_mo
-#define uatomic_load_mo(addr, mo)						\
-	__extension__ ({							\
-		__typeof__(addr) _uv_p = (addr);				\
-		uv_pre(UV_LD, _uv_p, sizeof(*_uv_p), (mo), __FILE__, __LINE__);	\
-		__typeof__(*_uv_p) _uv_v = (__typeof__(*_uv_p))			\
-			uv_do_load(_uv_p, sizeof(*_uv_p), (mo));		\
-		uv_post(UV_LD, _uv_p, sizeof(*_uv_p), 0, 0,			\
-			(unsigned long) _uv_v, (mo), __FILE__, __LINE__);	\
-		cmm_seq_cst_fence_after_atomic(mo);				\
-		_uv_v;								\
-	})
-#undef uatomic_store_mo
-#define uatomic_store_mo(addr, v, mo)						\
-	do {									\
-		__typeof__(addr) _uv_p = (addr);				\
-		__typeof__(*_uv_p) _uv_sv = (__typeof__(*_uv_p)) (v);		\
-		uv_pre(UV_ST, _uv_p, sizeof(*_uv_p), (mo), __FILE__, __LINE__);	\
-		uv_do_store(_uv_p, sizeof(*_uv_p), (unsigned long) _uv_sv, (mo)); \
-		uv_post(UV_ST, _uv_p, sizeof(*_uv_p), (unsigned long) _uv_sv,	\
-			0, 0, (mo), __FILE__, __LINE__);			\
-		cmm_seq_cst_fence_after_atomic(mo);				\
-	} while (0)
-
 #include REPO_SRC(urcu.c)
 #include REPO_SRC(compat_futex.c)	/* fallback of futex_noasync() on ENOSYS (VRT_FUTEX_ENOSYS=1) */
 
